@@ -1409,10 +1409,16 @@ def parse_tree(
         mode_text = text[count:mode_end]
         if strict and mode_text.startswith(b"0"):
             raise ObjectFormatException(f"Invalid mode {mode_text!r}")
+        # int() also accepts signs, underscores, a 0o prefix and surrounding
+        # whitespace; a tree mode consists of octal digits only.
+        if not mode_text or mode_text.strip(b"01234567"):
+            raise ObjectFormatException(f"Invalid mode {mode_text!r}")
         try:
             mode = int(mode_text, 8)
         except ValueError as exc:
             raise ObjectFormatException(f"Invalid mode {mode_text!r}") from exc
+        if mode > 0xFFFFFFFF:
+            raise ObjectFormatException(f"Invalid mode {mode_text!r}")
         name_end = text.index(b"\0", mode_end)
         name = text[mode_end + 1 : name_end]
 
